@@ -872,7 +872,16 @@ func (m *Model) Step(cid int, r *Req, win []*d.Event) *Outcome {
 				s.Planes = map[[3]float32]bool{}
 			}
 			for _, q := range r.Quads {
-				s.Planes[[3]float32{q[0], q[1], q[2]}] = true
+				// (a sample that is not finite or has a negative extent is skipped)
+				ok := q[3] >= 0 && q[5] >= 0
+				for _, x := range q {
+					if x != x || x > 3e38 || x < -3e38 {
+						ok = false
+					}
+				}
+				if ok {
+					s.Planes[[3]float32{q[0], q[1], q[2]}] = true
+				}
 			}
 			o.Accepted = true
 		}
